@@ -89,6 +89,16 @@ def classify(prev, line):
     return lab
 
 
+def obs_classes(line):
+    """distinct (query, kind of answer) classes of an observation"""
+    out = set()
+    for q in line["ev"].get("obs", {}).get("queries", []):
+        g = q["grpc"]
+        kind = "err" if g == ["ERR"] else "empty" if g == [] or g == [line["ev"]["obs"]["empty"]] else "one" if len(g) == 1 else "many"
+        out.add("Obs/%s/%s" % (q["q"], kind))
+    return out
+
+
 def scan_trace(prop, path):
     hist, counts, nontrivial = 0, {}, set()
     prev = None
@@ -104,6 +114,14 @@ def scan_trace(prop, path):
             counts[lab.split("/")[0]] = counts.get(lab.split("/")[0], 0) + 1
             if any((lab.startswith(r) if not r.startswith("/") else r in lab) for r in rel):
                 nontrivial.add(lab)
+            if lab == "Obs" and prop in ("C17", "C15"):
+                nontrivial |= {c for c in obs_classes(line) if prop == "C17" or "/bindings/" in c}
+            if line["ev"]["name"] in ("PrepZeroHeight", "Genesis") and prop == "C19":
+                g = line["ev"].get("gen") or {}
+                nontrivial.add("%s/ctx%d/bind%d/waddr%d/pending%d/earned%d" % (
+                    line["ev"]["name"], min(g.get("nctx", len(line["st"]["ctx"])), 3), min(g.get("nbind", len(line["st"]["bind"])), 3),
+                    min(g.get("nwaddr", len(line["st"]["waddr"])), 2), min(len(prev["actId"]), 2) if prev else 0,
+                    min(len(prev["earned"]), 2) if prev else 0))
             prev = line["st"]
     return hist, counts, nontrivial
 
@@ -133,7 +151,7 @@ def make_traces(prop, tier, seed, workdir, drive):
     traces.append(s1)
     n, steps = (14, 160) if tier == "quick" else (120, 300)
     s3 = os.path.join(workdir, "s3.ndjson")
-    stats["random"] = drive(["random", "-seed", str(seed), "-n", str(n), "-steps", str(steps), "-out", s3])
+    stats["random"] = drive(["random", "-seed", str(seed), "-n", str(n), "-steps", str(steps), "-genesis", "-out", s3])
     traces.append(s3)
     s2 = os.path.join(workdir, "s2.ndjson")
     stats["tlc_behaviours"] = tlc_behaviours(seed, 150 if tier == "quick" else 1500, 80, workdir, drive, s2)
@@ -224,6 +242,7 @@ PROP_FAMILIES = {
     "C05": ["binding", "lifecycle"], "C06": ["money"], "C07": ["money"], "C08": ["lifecycle"],
     "C09": ["lifecycle"], "C10": ["lifecycle"], "C11": ["lifecycle"], "C12": ["lifecycle"],
     "C13": ["money"], "C14": ["binding", "money"], "C15": ["binding"], "C16": ["lifecycle"],
+    "C19": ["money"],
 }
 
 TLC_NAMES = {
@@ -231,7 +250,7 @@ TLC_NAMES = {
     "C05": ([], ["P_C05"]), "C06": ([], ["P_C06"]), "C07": ([], ["P_C07"]), "C08": (["Inv_C08"], ["P_C08"]),
     "C09": ([], ["P_C09"]), "C10": (["Inv_C10"], ["P_C10"]), "C11": (["Inv_C11"], ["P_C11"]),
     "C12": (["Inv_C12"], ["P_C12"]), "C13": (["Inv_C13"], ["P_C13"]), "C14": (["Inv_C14"], []),
-    "C15": (["Inv_C15"], ["P_C15"]), "C16": (["Inv_C16"], ["P_C16"]),
+    "C15": (["Inv_C15"], ["P_C15"]), "C16": (["Inv_C16"], ["P_C16"]), "C19": ([], ["P_C19"]),
 }
 
 
@@ -240,6 +259,7 @@ def cfg_text(family, tier, prop):
     t = COMMON
     for k, v in fam[tier].items():
         t += "  %s = %s\n" % (k, v)
+    t += "  WithPrep = %s\n" % ("TRUE" if prop == "C19" else "FALSE")
     t += "SPECIFICATION MCSpec\nCONSTRAINT MCConstraint\nVIEW MCView\nCHECK_DEADLOCK FALSE\n"
     inv, prp = TLC_NAMES[prop]
     t += "INVARIANTS TypeOK " + " ".join(inv) + "\n"
@@ -250,11 +270,91 @@ def cfg_text(family, tier, prop):
 
 def mc_runs(prop, tier, seed):
     runs = []
+    if prop == "C18":
+        for g in ("free", "bound"):
+            runs.append({"module": "MC_keys", "cfg": KEYS_CFG % g, "tag": "keys-" + g, "timeout": 600})
+        return runs
     for fam in PROP_FAMILIES.get(prop, []):
         runs.append({"module": FAMILY[fam]["module"], "cfg": cfg_text(fam, tier, prop),
                      "tag": "%s-%s" % (fam, tier), "timeout": 600 if tier == "quick" else 3000})
     return runs
 
 
+KEYS_CFG = """CONSTANTS
+  AddrLens = {2}
+  Group = "%s"
+INIT Init
+NEXT Next
+INVARIANT KeysOK
+"""
+
+
+def simple_tlc(module, cfg, workdir, tag, files=()):
+    """run a small TLC job (KeysTrace, Replicas); returns its output"""
+    import glob, shutil, subprocess
+    d = os.path.join(workdir, "x-" + tag)
+    os.makedirs(d, exist_ok=True)
+    spec = os.path.join(os.path.dirname(os.path.dirname(os.path.abspath(__file__))), "spec")
+    for f in glob.glob(os.path.join(spec, "*.tla")):
+        shutil.copy(f, d)
+    with open(os.path.join(d, "X.cfg"), "w") as f:
+        f.write(cfg)
+    jar = "/opt/veriftools/tla/tla2tools.jar:/opt/veriftools/tla/CommunityModules-deps.jar"
+    cmd = ["java", "-XX:+UseParallelGC", "-Xmx4g", "-Xss64m", "-cp", jar, "tlc2.TLC", "-workers", "1",
+           "-noGenerateSpecTE", "-metadir", os.path.join(d, "meta"), "-config", "X.cfg", module + ".tla"]
+    r = subprocess.run(cmd, cwd=d, stdout=subprocess.PIPE, stderr=subprocess.STDOUT, text=True, timeout=3000)
+    shutil.rmtree(d, ignore_errors=True)
+    return r.stdout
+
+
 def extra_checks(prop, tier, seed, workdir, drive, build=None):
+    import re, shutil
+    verif = os.path.dirname(os.path.dirname(os.path.abspath(__file__)))
+    if prop == "C18":
+        kf = os.path.join(workdir, "keys.ndjson")
+        st = drive(["keys", "-seed", str(seed), "-out", kf])
+        out = simple_tlc("KeysTrace", 'CONSTANTS\n  TraceFile = "%s"\nSPECIFICATION Spec\nCHECK_DEADLOCK FALSE\n' % kf,
+                         workdir, "keys")
+        m = re.search(r'<<"END", (\d+)>>', out)
+        if not m or int(m.group(1)) != st["lines"]:
+            raise RuntimeError("KeysTrace did not consume the key log:\n" + out[-3000:])
+        bad = re.findall(r'<<"KEYVIOL", (\d+), "(\w+)">>', out)
+        res = {"evaluations": st["lines"], "distinct_nontrivial": len(st["functions"]),
+               "rule": "Key layout: every exported key builder, scan prefix and identifier function of types/keys.go and "
+                       "types/invocation.go is called on enumerated and seeded-random inputs and TLC compares the bytes with "
+                       "Keys.tla (distinct = functions bound).",
+               "key_functions": st["functions"], "samples": [{"key_functions_bound": sorted(st["functions"])}]}
+        if bad:
+            keep = os.path.join(verif, "replays", "C18-keys-%d.ndjson" % seed)
+            shutil.copy(kf, keep)
+            res["violations"] = [({"keys_log": keep, "lines": bad[:10]}, {"name": "keys"})]
+        return res
+    if prop == "C20":
+        files = []
+        for r in ("A", "B", "C"):
+            f = os.path.join(workdir, "det-%s.ndjson" % r)
+            drive(["random", "-seed", str(seed + 7), "-n", "6" if tier == "quick" else "40", "-steps", "120", "-out", f])
+            files.append((r, f))
+        merged = os.path.join(workdir, "replicas.ndjson")
+        n = 0
+        with open(merged, "w") as out:
+            for r, f in files:
+                for k, line in enumerate(open(f), 1):
+                    d = json.loads(line)
+                    out.write(json.dumps({"r": r, "k": k, "op": d["ev"]["name"] + ("" if d["ev"]["ok"] else "/rejected"), "dg": d["dg"]}) + "\n")
+                    n += 1
+        o = simple_tlc("Replicas", 'CONSTANTS\n  TraceFile = "%s"\nSPECIFICATION Spec\nINVARIANT Deterministic\nCHECK_DEADLOCK FALSE\n' % merged,
+                       workdir, "replicas")
+        m = re.search(r'<<"END", (\d+)>>', o)
+        if not m or int(m.group(1)) != n:
+            raise RuntimeError("Replicas did not consume the merged log:\n" + o[-3000:])
+        res = {"evaluations": n, "distinct_nontrivial": 3,
+               "rule": "Determinism: the same seeded histories executed by three separate processes; TLC checks on the merged "
+                       "log that equal applied prefixes give equal digests of the raw store, balances and supply.",
+               "replicas": 3, "samples": [{"replica_log_lines": n}]}
+        if "is violated" in o:
+            keep = os.path.join(verif, "replays", "C20-replicas-%d.ndjson" % seed)
+            shutil.copy(merged, keep)
+            res["violations"] = [({"replicas_log": keep}, {"name": "replicas"})]
+        return res
     return {}
